@@ -29,7 +29,7 @@ func c18Src(c *C18Case) string { return c.Src }
 var c18Vocab = []string{"script", "raw", "text", "movement", "mart", "mapscripts", "format", "var", "flag", "defeated", "TRUE", "false", "if", "else", "elif", "do", "while", "break", "continue", "switch", "case", "default", "global", "local", "poryswitch", "const", "value", "moves",
 	"(", ")", "{", "}", "[", "]", ",", ":", "*", "=", "==", "!=", "<", "<=", ">", ">=", "&&", "||", "!",
 	"A", "B", "V", "_", "foo", "random", "specialvar", "msgbox", "end", "return", "goto", "step_end", "ITEM_NONE", "fontId", "maxLineLength", "numLines", "cursorOverlapWidth",
-	"0", "1", "2", "-1", "0x10", "9999", "10000", "99999999999999999999", "３", "٣٤", "-٣", "0x", "value()", "var()", "flag()", "moves()", "format()", "defeated()", `"txt"`, `"a b c d e f"`, `ascii"x"`, `"TEST"`, `"1_latin_rse"`, `"bogus"`, "`raw`", "`", `"`, "#c\n", "//c\n", "\n", "\r\n", "&", "|", "€", "\x00", "\ufffd", "\ufeff", "S_1", "S_Text_0", "S_Movement_0"}
+	"0", "1", "2", "-1", "0x10", "9999", "10000", "99999999999999999999", "３", "٣٤", "-٣", "0x", "value()", "var()", "flag()", "moves()", "format()", "defeated()", `"txt"`, `"a b c d e f"`, `ascii"x"`, `"TEST"`, `"1_latin_rse"`, `"bogus"`, "`raw`", "`", `"`, "#c\n", "//c\n", "/*", "*/", "/*/", "/* c", "\n", "\r\n", "&", "|", "€", "\x00", "\ufffd", "\ufeff", "S_1", "S_Text_0", "S_Movement_0"}
 
 const c18Header = "script S {\n"
 
@@ -259,7 +259,7 @@ func genMutant(t *rapid.T) string {
 	return s
 }
 
-var hostile = []string{"３", "٣", "value()", "var(A) == value()", "flag()", "moves()", "format()", "poryswitch(V){}", "switch(var(A)){}", "text T {}", "mapscripts M { A [ ] }", "mapscripts M { A [ , : ] }", "movement M { x * }", "const C =", "A(global)", "()", "{}", "[]", "\x00", "\ufffd", "\ufeff", `"`, "`", "\\", "\r", "\n", "\t", "{", "}", "(", ")", "0x", "-", "*", "script", "text T { \"", "format(", "poryswitch(V){", "switch(var(A)){case ", "if(", "moves(", "raw `", "mapscripts M { A [", "const C = ", " ", "\U0001F600", "é"}
+var hostile = []string{"/*", "/* never closed", "/*/", "*/", "３", "٣", "value()", "var(A) == value()", "flag()", "moves()", "format()", "poryswitch(V){}", "switch(var(A)){}", "text T {}", "mapscripts M { A [ ] }", "mapscripts M { A [ , : ] }", "movement M { x * }", "const C =", "A(global)", "()", "{}", "[]", "\x00", "\ufffd", "\ufeff", `"`, "`", "\\", "\r", "\n", "\t", "{", "}", "(", ")", "0x", "-", "*", "script", "text T { \"", "format(", "poryswitch(V){", "switch(var(A)){case ", "if(", "moves(", "raw `", "mapscripts M { A [", "const C = ", " ", "\U0001F600", "é"}
 
 func genHostile(t *rapid.T) string {
 	switch rapid.IntRange(0, 6).Draw(t, "hk") {
